@@ -192,3 +192,360 @@ Fixpoint first_clash (i : nat) (ts : list (list target)) : option (nat * nat) :=
          | y :: l' => if stmts_disjoint x y then scan (S j) l' else Some (i, j)
          end) (S i) r
   end.
+
+(** * Soundness against [Sem]: the order of the concurrent statements does not matter
+
+    [Sem.delta] runs the triggered statements in the order of [d_conc], concatenates their
+    write lists in that order and hands them to [Sem.commit].  We prove that the result of
+    [commit] is the same for every order of the per-statement write lists as long as no two
+    statements assign the same signal ([commit_perm]: the two-statement swap lemma
+    [commit_swap_blocks], lifted to arbitrary permutations through adjacent transpositions),
+    and that the writes a statement can produce stay inside its static footprint
+    ([run_conc_roots]).  Results are compared up to [PM.Equal] (extensional equality of the
+    stores); two runs that both end in a run-time error are identified. *)
+From Coq Require Import Permutation.
+
+Definition res_equiv (a b : res store) : Prop :=
+  match a, b with
+  | Ok s, Ok s' => PM.Equal s s'
+  | Err _, Err _ => True
+  | _, _ => False
+  end.
+
+Lemma res_equiv_refl a : res_equiv a a.
+Proof. destruct a; simpl; [intros y; reflexivity | exact I]. Qed.
+
+Lemma res_equiv_trans a b c : res_equiv a b -> res_equiv b c -> res_equiv a c.
+Proof.
+  destruct a, b, c; simpl; try tauto. intros H1 H2 y. rewrite (H1 y). apply H2.
+Qed.
+
+Lemma res_equiv_sym a b : res_equiv a b -> res_equiv b a.
+Proof. destruct a, b; simpl; try tauto. intros H y. symmetry. apply H. Qed.
+
+Lemma lookup_equal s s' x : PM.Equal s s' -> lookup s x = lookup s' x.
+Proof. intros H. unfold lookup. rewrite (H x). reflexivity. Qed.
+
+Lemma add_equal s s' x (v : value) : PM.Equal s s' -> PM.Equal (PM.add x v s) (PM.add x v s').
+Proof.
+  intros H y. destruct (Pos.eq_dec y x) as [E|N].
+  - subst y. rewrite !PM.gss. reflexivity.
+  - rewrite !PM.gso by exact N. apply H.
+Qed.
+
+Lemma add_comm s x y (v w : value) : x <> y ->
+  PM.Equal (PM.add x v (PM.add y w s)) (PM.add y w (PM.add x v s)).
+Proof.
+  intros N z. destruct (Pos.eq_dec z x) as [E|Nx]; [subst z|].
+  - rewrite PM.gss. rewrite PM.gso by exact N. rewrite PM.gss. reflexivity.
+  - rewrite (PM.gso _ _ Nx). destruct (Pos.eq_dec z y) as [E|Ny]; [subst z|].
+    + rewrite !PM.gss. reflexivity.
+    + rewrite !(PM.gso _ _ Ny). rewrite (PM.gso _ _ Nx). reflexivity.
+Qed.
+
+Lemma commit_equal ws : forall s s', PM.Equal s s' -> res_equiv (commit s ws) (commit s' ws).
+Proof.
+  induction ws as [|[[root rp] x] ws IH]; intros s s' H; simpl.
+  - exact H.
+  - rewrite (lookup_equal s s' root H). destruct (lookup s' root) as [base|e]; simpl; [|exact I].
+    destruct (apply_write base rp x) as [nv|e]; simpl; [|exact I].
+    apply IH. apply add_equal. exact H.
+Qed.
+
+Definition wroot (w : write) : positive := fst (fst w).
+
+Lemma commit_cons r p x ws s :
+  commit s ((r, p, x) :: ws) =
+  match PM.find r s with
+  | Some b => match apply_write b p x with Ok nv => commit (PM.add r nv s) ws | Err e => Err e end
+  | None => Err EUnbound
+  end.
+Proof. simpl. unfold lookup. destruct (PM.find r s); simpl; [|reflexivity]. destruct (apply_write v p x); reflexivity. Qed.
+
+(** a write to another root can be moved in front *)
+Lemma commit_swap2 (w1 w2 : write) rest s :
+  wroot w1 <> wroot w2 ->
+  res_equiv (commit s (w1 :: w2 :: rest)) (commit s (w2 :: w1 :: rest)).
+Proof.
+  destruct w1 as [[r1 p1] x1], w2 as [[r2 p2] x2]. unfold wroot; simpl fst. intros N.
+  assert (N' : r2 <> r1) by (intros E; apply N; symmetry; exact E).
+  rewrite (commit_cons r1), (commit_cons r2 p2 x2 ((r1, p1, x1) :: rest)).
+  destruct (PM.find r1 s) as [b1|] eqn:F1; destruct (PM.find r2 s) as [b2|] eqn:F2.
+  - destruct (apply_write b1 p1 x1) as [n1|e1] eqn:A1; destruct (apply_write b2 p2 x2) as [n2|e2] eqn:A2;
+      rewrite ?commit_cons, ?(PM.gso _ _ N), ?(PM.gso _ _ N'), ?F1, ?F2, ?A1, ?A2; try exact I.
+    apply commit_equal. apply add_comm. exact N'.
+  - destruct (apply_write b1 p1 x1) as [n1|e1] eqn:A1;
+      rewrite ?commit_cons, ?(PM.gso _ _ N), ?(PM.gso _ _ N'), ?F1, ?F2; exact I.
+  - destruct (apply_write b2 p2 x2) as [n2|e2] eqn:A2;
+      rewrite ?commit_cons, ?(PM.gso _ _ N), ?(PM.gso _ _ N'), ?F1, ?F2; exact I.
+  - exact I.
+Qed.
+
+Lemma commit_app a b s :
+  commit s (a ++ b) = match commit s a with Ok s1 => commit s1 b | Err e => Err e end.
+Proof.
+  revert s. induction a as [|[[r p] x] a IH]; intros s; [reflexivity|].
+  rewrite <- app_comm_cons, !commit_cons.
+  destruct (PM.find r s) as [b0|]; [|reflexivity].
+  destruct (apply_write b0 p x); [apply IH | reflexivity].
+Qed.
+
+(** equivalent continuations stay equivalent behind a common prefix *)
+Lemma commit_prefix p l l' :
+  (forall s, res_equiv (commit s l) (commit s l')) ->
+  forall s, res_equiv (commit s (p ++ l)) (commit s (p ++ l')).
+Proof.
+  intros H s. rewrite !commit_app. destruct (commit s p); [apply H | exact I].
+Qed.
+
+Definition touches (r : positive) (ws : list write) : bool := existsb (fun w => Pos.eqb (wroot w) r) ws.
+
+Definition roots_disjoint (a b : list write) : Prop :=
+  forall r, touches r a = true -> touches r b = false.
+
+Lemma touches_false r ws : touches r ws = false -> forall w, In w ws -> wroot w <> r.
+Proof.
+  unfold touches. intros H w Hin E. 
+  assert (X : existsb (fun w => Pos.eqb (wroot w) r) ws = true).
+  { apply existsb_exists. exists w. split; [exact Hin | apply Pos.eqb_eq, E]. }
+  congruence.
+Qed.
+
+(** one write moves behind a block that does not touch its root *)
+Lemma commit_move1 w b : touches (wroot w) b = false ->
+  forall rest s, res_equiv (commit s (w :: b ++ rest)) (commit s (b ++ w :: rest)).
+Proof.
+  induction b as [|v b IH]; intros H rest s; [apply res_equiv_refl|].
+  simpl in H. apply orb_false_iff in H. destruct H as [Hv Hb].
+  assert (N : wroot w <> wroot v). { intros E. rewrite E, Pos.eqb_refl in Hv. discriminate. }
+  eapply res_equiv_trans; [apply (commit_swap2 w v (b ++ rest) s N)|].
+  change (v :: w :: b ++ rest) with ([v] ++ (w :: b ++ rest)).
+  change ((v :: b) ++ w :: rest) with ([v] ++ (b ++ w :: rest)).
+  apply commit_prefix. intros s'. apply IH. exact Hb.
+Qed.
+
+(** the two-statement swap lemma *)
+Lemma commit_swap_blocks a : forall b rest, roots_disjoint a b ->
+  forall s, res_equiv (commit s (a ++ b ++ rest)) (commit s (b ++ a ++ rest)).
+Proof.
+  induction a as [|w a IH]; intros b rest H s; [apply res_equiv_refl|].
+  assert (Hw : touches (wroot w) b = false).
+  { apply H. simpl. rewrite Pos.eqb_refl. reflexivity. }
+  assert (Ha : roots_disjoint a b).
+  { intros r Hr. apply H. simpl. rewrite Hr. apply orb_true_r. }
+  eapply res_equiv_trans.
+  - change ((w :: a) ++ b ++ rest) with ([w] ++ (a ++ b ++ rest)).
+    apply (commit_prefix [w] (a ++ b ++ rest) (b ++ a ++ rest)). intros s'. apply IH. exact Ha.
+  - simpl. apply (commit_move1 w b Hw (a ++ rest) s).
+Qed.
+
+(** lift: at most one statement assigns each signal  =>  any order of the statements' write lists *)
+Definition owners_of (r : positive) (wss : list (list write)) : nat := length (filter (touches r) wss).
+
+Lemma owners_transp wss wss' : Permutation_transp wss wss' -> forall r, owners_of r wss = owners_of r wss'.
+Proof.
+  induction 1; intros r; [reflexivity | | rewrite IHPermutation_transp1; apply IHPermutation_transp2].
+  unfold owners_of. rewrite !filter_app, !app_length. simpl.
+  destruct (touches r x), (touches r y); simpl; lia.
+Qed.
+
+Theorem commit_perm wss wss' s :
+  (forall r, owners_of r wss <= 1) ->
+  Permutation wss wss' ->
+  res_equiv (commit s (List.concat wss)) (commit s (List.concat wss')).
+Proof.
+  intros H P. apply Permutation_Permutation_transp in P. revert s H.
+  induction P as [l | x y l1 l2 | l1 l2 l3 P1 IH1 P2 IH2]; intros s H.
+  - apply res_equiv_refl.
+  - rewrite !List.concat_app. simpl. apply commit_prefix. intros s'.
+    apply commit_swap_blocks. intros r Hy.
+    specialize (H r). unfold owners_of in H. rewrite filter_app, app_length in H. simpl in H.
+    rewrite Hy in H. destruct (touches r x); [simpl in H; lia | reflexivity].
+  - eapply res_equiv_trans; [apply IH1, H|]. apply IH2.
+    intros r. rewrite <- (owners_transp _ _ P1 r). apply H.
+Qed.
+
+(** ** the writes a statement can produce stay inside its static footprint *)
+
+Fixpoint stmt_writes_acc (s : stmt) :
+  forall acc x, In x (stmt_writes s acc) <-> In x (stmt_writes s []) \/ In x acc
+with arms_writes_acc (a : arms) :
+  forall acc x, In x (arms_writes a acc) <-> In x (arms_writes a []) \/ In x acc.
+Proof.
+  - destruct s as [|r p e|r p e|c a b|e ar|a b|c]; intros acc x; simpl; try tauto.
+    + rewrite (stmt_writes_acc a), (stmt_writes_acc a (stmt_writes b [])), (stmt_writes_acc b acc). tauto.
+    + apply arms_writes_acc.
+    + rewrite (stmt_writes_acc a), (stmt_writes_acc a (stmt_writes b [])), (stmt_writes_acc b acc). tauto.
+  - destruct a as [[s|]|chs s r]; intros acc x; simpl.
+    + apply stmt_writes_acc.
+    + tauto.
+    + rewrite (stmt_writes_acc s), (stmt_writes_acc s (arms_writes r [])), (arms_writes_acc r acc). tauto.
+Qed.
+
+Definition stmt_roots (s : stmt) : list positive := map fst (stmt_writes s []).
+Definition arms_roots (a : arms) : list positive := map fst (arms_writes a []).
+
+Lemma in_roots_acc s acc r :
+  In r (map fst (stmt_writes s acc)) <-> In r (stmt_roots s) \/ In r (map fst acc).
+Proof.
+  unfold stmt_roots. rewrite !in_map_iff. split.
+  - intros (x & E & H). apply stmt_writes_acc in H. destruct H; [left | right]; exists x; auto.
+  - intros [(x & E & H)|(x & E & H)]; exists x; split; auto; apply stmt_writes_acc; auto.
+Qed.
+
+Lemma in_aroots_acc a acc r :
+  In r (map fst (arms_writes a acc)) <-> In r (arms_roots a) \/ In r (map fst acc).
+Proof.
+  unfold arms_roots. rewrite !in_map_iff. split.
+  - intros (x & E & H). apply arms_writes_acc in H. destruct H; [left | right]; exists x; auto.
+  - intros [(x & E & H)|(x & E & H)]; exists x; split; auto; apply arms_writes_acc; auto.
+Qed.
+
+Fixpoint exec_roots (s : stmt) :
+  forall sg ev vr pend vr' pend', exec sg ev s vr pend = Ok (vr', pend') ->
+  forall w, In w pend' -> In w pend \/ In (wroot w) (stmt_roots s)
+with exec_arms_roots (a : arms) :
+  forall sg ev v vr pend vr' pend', exec_arms sg ev v a vr pend = Ok (vr', pend') ->
+  forall w, In w pend' -> In w pend \/ In (wroot w) (arms_roots a).
+Proof.
+  - destruct s as [|r p e|r p e|c a b|e ar|a b|c]; intros sg ev vr pend vr' pend' H w Hw; simpl in H.
+    + inversion H; subst. auto.
+    + destruct (eval sg vr ev e); simpl in H; [|discriminate].
+      destruct (resolve sg vr ev p); simpl in H; [|discriminate].
+      destruct (lookup sg r); simpl in H; [|discriminate].
+      destruct (apply_write _ _ _); simpl in H; [|discriminate].
+      inversion H; subst. destruct Hw as [E|Hw]; [|auto]. subst w. right. left. reflexivity.
+    + destruct (eval sg vr ev e); simpl in H; [|discriminate].
+      destruct (resolve sg vr ev p); simpl in H; [|discriminate].
+      destruct (lookup vr r); simpl in H; [|discriminate].
+      destruct (apply_write _ _ _); simpl in H; [|discriminate].
+      inversion H; subst. auto.
+    + destruct (eval sg vr ev c) as [cv|]; simpl in H; [|discriminate].
+      destruct cv as [| | [|] | | |]; try discriminate.
+      * destruct (exec_roots a _ _ _ _ _ _ H w Hw) as [X|X]; [auto|].
+        right. unfold stmt_roots. simpl. apply in_roots_acc. auto.
+      * destruct (exec_roots b _ _ _ _ _ _ H w Hw) as [X|X]; [auto|].
+        right. unfold stmt_roots. simpl. apply in_roots_acc. right. exact X.
+    + destruct (eval sg vr ev e) as [v|]; simpl in H; [|discriminate].
+      apply (exec_arms_roots ar _ _ _ _ _ _ _ H w Hw).
+    + destruct (exec sg ev a vr pend) as [[vr1 pend1]|] eqn:E1; simpl in H; [|discriminate].
+      destruct (exec_roots b _ _ _ _ _ _ H w Hw) as [X|X].
+      * destruct (exec_roots a _ _ _ _ _ _ E1 w X) as [Y|Y]; [auto|].
+        right. unfold stmt_roots. simpl. apply in_roots_acc. auto.
+      * right. unfold stmt_roots. simpl. apply in_roots_acc. right. exact X.
+    + destruct (eval sg vr ev c) as [cv|]; simpl in H; [|discriminate].
+      destruct cv; try discriminate. inversion H; subst. auto.
+  - destruct a as [[s|]|chs s r]; intros sg ev v vr pend vr' pend' H w Hw; simpl in H.
+    + apply (exec_roots s _ _ _ _ _ _ H w Hw).
+    + inversion H; subst. auto.
+    + destruct (existsb (choice_eqb v) chs).
+      * destruct (exec_roots s _ _ _ _ _ _ H w Hw) as [X|X]; [auto|].
+        right. unfold arms_roots. simpl. apply in_roots_acc. auto.
+      * destruct (exec_arms_roots r _ _ _ _ _ _ _ H w Hw) as [X|X]; [auto|].
+        right. unfold arms_roots. simpl. apply in_roots_acc. right. exact X.
+Qed.
+
+Definition conc_roots (c : conc) : list positive := map fst (conc_writes c).
+
+Lemma run_conc_roots sg vr ev c vr' ws :
+  run_conc sg vr ev c = Ok (vr', ws) -> forall w, In w ws -> In (wroot w) (conc_roots c).
+Proof.
+  destruct c as [r p e|r p s alts others|lbl sens body]; simpl; intros H w Hw.
+  - destruct (eval sg vr ev e); simpl in H; [|discriminate].
+    destruct (resolve sg vr ev p); simpl in H; [|discriminate].
+    destruct (lookup sg r); simpl in H; [|discriminate].
+    destruct (apply_write _ _ _); simpl in H; [|discriminate].
+    inversion H; subst. destruct Hw as [E|[]]. subst w. left. reflexivity.
+  - destruct (eval sg vr ev s); simpl in H; [|discriminate].
+    destruct (select_alt _ _ _); [|discriminate].
+    destruct (eval sg vr ev e); simpl in H; [|discriminate].
+    destruct (resolve sg vr ev p); simpl in H; [|discriminate].
+    destruct (lookup sg r); simpl in H; [|discriminate].
+    destruct (apply_write _ _ _); simpl in H; [|discriminate].
+    inversion H; subst. destruct Hw as [E|[]]. subst w. left. reflexivity.
+  - destruct (exec sg ev body vr []) as [[vr1 pend1]|] eqn:E; simpl in H; [|discriminate].
+    inversion H; subst. apply in_rev in Hw.
+    destruct (exec_roots body _ _ _ _ _ _ E w Hw) as [[]|X]. exact X.
+Qed.
+
+(** root-level strengthening of [drivers_disjoint]: no two statements assign the same signal *)
+Definition pmem (x : positive) (l : list positive) : bool := existsb (Pos.eqb x) l.
+Definition lists_disjoint (a b : list positive) : bool := forallb (fun x => negb (pmem x b)) a.
+Definition single_driver_roots (d : design) : bool := pairwise lists_disjoint (map conc_roots d.(d_conc)).
+
+Lemma touches_within r ws roots :
+  (forall w, In w ws -> In (wroot w) roots) -> touches r ws = true -> In r roots.
+Proof.
+  intros H T. unfold touches in T. apply existsb_exists in T. destruct T as (w & Hin & E).
+  apply Pos.eqb_eq in E. subst r. apply H, Hin.
+Qed.
+
+Lemma owners_le_1 (rs : list (list positive)) : forall wss,
+  pairwise lists_disjoint rs = true ->
+  Forall2 (fun roots ws => forall w, In w ws -> In (wroot w) roots) rs wss ->
+  forall r, owners_of r wss <= 1.
+Proof.
+  induction rs as [|roots rs IH]; intros wss P F r; inversion F as [|? ws ? wss' Hw F']; subst.
+  - unfold owners_of. simpl. lia.
+  - simpl in P. apply andb_prop in P. destruct P as [P1 P2].
+    specialize (IH _ P2 F' r). unfold owners_of in *. simpl.
+    destruct (touches r ws) eqn:T; [|exact IH]. simpl.
+    assert (Hr : In r roots) by (eapply touches_within; eauto).
+    assert (Z : filter (touches r) wss' = []).
+    { clear IH P2 F Hw T. revert wss' F'. induction rs as [|roots' rs IH']; intros wss' F'; inversion F' as [|? ws' ? wss'' Hw' F'']; subst.
+      - reflexivity.
+      - simpl in P1. apply andb_prop in P1. destruct P1 as [Pa Pb]. simpl.
+        destruct (touches r ws') eqn:T'.
+        + exfalso. assert (Hr' : In r roots') by (eapply touches_within; eauto).
+          unfold lists_disjoint in Pa. rewrite forallb_forall in Pa. specialize (Pa r Hr).
+          assert (X : pmem r roots' = true) by (apply existsb_exists; exists r; split; [exact Hr' | apply Pos.eqb_refl]).
+          rewrite X in Pa. discriminate.
+        + apply IH'; assumption. }
+    rewrite Z. simpl. lia.
+Qed.
+
+(** [single_driver_sound], partial: proved for designs in which different concurrent statements
+    assign different SIGNALS ([single_driver_roots], what cohdl's root-level usage check aims
+    at).  Whatever variable stores the statements ran with ([vr0], so also under the threading
+    of [Sem.run_all]), the write lists they produce can be handed to [Sem.commit] in any
+    statement order: the committed store is the same (or both orders end in a run-time error).
+    MISSING for the full statement: (1) statements that assign disjoint scalars of one signal
+    (accepted by [single_driver]; needs commutation of [setslice] on disjoint ranges),
+    (2) independence of the variable store threading from the order (follows from
+    [vars_local], frame property of [exec], not proved here). *)
+Theorem single_driver_sound_partial d sg ev wss wss' :
+  single_driver_roots d = true ->
+  Forall2 (fun c ws => exists vr0 vr1, run_conc sg vr0 ev c = Ok (vr1, ws)) d.(d_conc) wss ->
+  Permutation wss wss' ->
+  res_equiv (commit sg (List.concat wss)) (commit sg (List.concat wss')).
+Proof.
+  intros S F P. apply commit_perm; [|exact P].
+  apply (owners_le_1 (map conc_roots d.(d_conc))); [exact S|].
+  clear S P. induction F as [|c ws cs wss0 H F IH]; simpl; constructor; [|exact IH].
+  destruct H as (vr0 & vr1 & H). apply (run_conc_roots _ _ _ _ _ _ H).
+Qed.
+
+(** non-vacuity: two processes and a concurrent assignment on three different signals *)
+Example single_driver_roots_example :
+  let d := {| d_sigs := [ {| sd_id := 1; sd_ty := TLogic; sd_dir := DIn; sd_init := VL false; sd_hasdef := false |};
+                          {| sd_id := 2; sd_ty := TVec KSlv 4; sd_dir := DOut; sd_init := VV KSlv 4 0; sd_hasdef := false |};
+                          {| sd_id := 3; sd_ty := TLogic; sd_dir := DLocal; sd_init := VL false; sd_hasdef := false |} ];
+              d_vars := [ {| vd_id := 1; vd_proc := 1; vd_ty := TLogic; vd_init := VL false; vd_hasdef := false |} ];
+              d_conc := [ CProc 1 [1%positive] (SSeq (SVar 1 [] (ESig 1)) (SSig 3 [] (EVar 1)));
+                          CAssign 2 [SelSlice 3 2] (ELit (VV KSlv 2 1));
+                          CAssign 2 [SelIdx (ELit (VI 1))] (ESig 3) ];
+              d_clk := None; d_inputs := [1%positive]; d_outputs := [2%positive] |} in
+  single_driver d = true /\ single_driver_roots d = false
+  /\ single_driver {| d_sigs := d.(d_sigs); d_vars := d.(d_vars);
+                      d_conc := CAssign 3 [] (EVar 1) :: d.(d_conc);
+                      d_clk := None; d_inputs := []; d_outputs := [] |} = false
+  /\ single_driver_roots {| d_sigs := d.(d_sigs); d_vars := d.(d_vars);
+                            d_conc := [ CProc 1 [1%positive] (SSig 3 [] (ESig 1)); CAssign 2 [] (ELit (VV KSlv 4 1)) ];
+                            d_clk := None; d_inputs := []; d_outputs := [] |} = true.
+Proof. vm_compute. repeat split. Qed.
+
+Lemma single_driver_nonvacuous : exists d, single_driver d = true /\ single_driver_roots d = false.
+Proof.
+  eexists. pose proof single_driver_roots_example as H. cbv zeta in H. destruct H as (A & B & _).
+  split; [exact A | exact B].
+Qed.
